@@ -57,9 +57,16 @@ def check(ctx):
     fparam = gat.positional_params[0]
     Base = model.cls("BaseField")
     tests = []
+
+    def is_arg(x, node):
+        if not isinstance(x, ast.Name):
+            return False
+        if x.id == fparam:
+            return True
+        srcs = value_sources(gat, x, node)          # a local that only ever holds the parameter
+        return bool(srcs) and all(k == "param" and pl == fparam for k, pl in srcs)
     for t in g.nodes:
-        if t.kind == "test" and isinstance(t.ast, ast.Call) and ast.unparse(t.ast.func) == "isinstance" and isinstance(t.ast.args[0], ast.Name) \
-                and t.ast.args[0].id == fparam:
+        if t.kind == "test" and isinstance(t.ast, ast.Call) and ast.unparse(t.ast.func) == "isinstance" and len(t.ast.args) == 2 and is_arg(t.ast.args[0], t):
             spec = ft.class_spec(t.ast.args[1], ft.env_in.get(t) or {})
             if spec:
                 tests.append((t, spec))
@@ -68,14 +75,22 @@ def check(ctx):
     ctx.need(len(direct) >= 3, "direct subclasses of BaseField not found")
     for c in sorted(direct, key=lambda c: c.name):
         # a test accepting c (c is a subclass of a tested class) whose True edge does not run into a raise
-        accepted = None
-        for t, spec in tests:
-            if any(c.is_subclass_of(model.classes[s]) if s in model.classes else False for s in spec):
-                for s2, lbl in t.succ:
-                    if lbl is True:
-                        dead = g.path(s2, lambda n: n.kind == "raise", may_raise=lambda n: False, stop=lambda n: n.kind == "test") or s2.kind == "raise"
-                        if not dead:
-                            accepted = t
+        # get_annotation_typestr specialised for "the argument is a c": it must be able to return and must not end in raise
+        from engine.specialize import Spec
+
+        def decide(e, node, c=c):
+            if isinstance(e, ast.Call) and ast.unparse(e.func) == "isinstance" and len(e.args) == 2 and is_arg(e.args[0], node):
+                if ast.unparse(e.args[1]) in ("type", "str", "type(None)", "(type, str)", "(str, type)"):
+                    return False
+                spec = ft.class_spec(e.args[1], (ft.env_in.get(node) if node is not None else None) or {})
+                if spec and all(s_ in model.classes for s_ in spec):
+                    return any(c.is_subclass_of(model.classes[s_]) for s_ in spec)
+            if isinstance(e, ast.Compare) and len(e.ops) == 1 and is_arg(e.left, node) and isinstance(e.comparators[0], ast.Constant) \
+                    and e.comparators[0].value is None and isinstance(e.ops[0], (ast.Is, ast.IsNot)):
+                return isinstance(e.ops[0], ast.IsNot)
+            return None
+        spc = Spec(an, gat, decide)
+        accepted = True if (spc.normal_returns() and not spc.raises()) else None
         ctx.ob("dispatch.total", gat, "branch for %s" % c.name, accepted is not None,
                "a %s reaches a non-raising branch" % c.name if accepted is not None else
                "a schema member of kind %s falls through to `raise TypeError`: generate_stub fails for schemas that contain one" % c.name)
@@ -178,54 +193,69 @@ def check(ctx):
 
     # ---------------------------------------------------------------- C20.4 partition
     g = an.cfg(gs)
+    _partition(ctx, an, model, gs, g)
+    _stub_tail(ctx, an, model, gs, g)
+
+
+def _partition(ctx, an, model, gs, g):
+    """Which fields end up in the class body, the constructor line and the methods.  generate_stub records fields in tables:
+    either a loop over the schema's fields that stores into them (`t[key] = ...`, `t.append(...)`) or comprehensions over the
+    fields / over other tables with filters.  For a field of each kind, membership in a table is decided from the code --
+    for a table filled in the loop, by specialising generate_stub for that kind (is the store reachable?); for a
+    comprehension, by evaluating its filters (isinstance by the class hierarchy, `key in <table>` by that table's own
+    membership).  The tables are then told apart by what is made of them: the statement that builds `def __init__(...)`,
+    the loop / comprehension that calls get_method_annotation, the other loops / comprehensions over a table."""
+    from engine.specialize import Spec
+    ft = an.ft(gs)
+    COMP = (ast.SetComp, ast.DictComp, ast.ListComp, ast.GeneratorExp)
     loops = [n for n in g.nodes if n.kind == "for_iter" and isinstance(n.ast, ast.For) and any(
         isinstance(x, ast.Attribute) and x.attr == "_fields" for x in ast.walk(n.ast.iter))]
-    ctx.need(bool(loops), "generate_stub no longer iterates over the schema's fields")
-    head = loops[0]
-    body0 = [s for s, lbl in head.succ if lbl is True][0]
+    head = loops[0] if loops else None
     stores = {}
+    in_head = {id(x) for x in ast.walk(head.ast)} if head is not None else set()
     for n in g.nodes:
         if n.kind == "assign" and isinstance(n.ast, ast.Assign):
             for t in n.ast.targets:
                 if isinstance(t, ast.Subscript) and isinstance(t.value, ast.Name):
                     stores.setdefault(t.value.id, []).append(n)
-    ctx.need(len(stores) >= 1, "generate_stub no longer records fields in any table")
-    all_store_nodes = {n for ns in stores.values() for n in ns}
-    p = path_avoiding(an, gs, body0, lambda n: n is head, lambda n: n in all_store_nodes, exceptions=False)
-    ctx.ob("partition.total", gs, "every field is recorded in some table", p is None, "no field is dropped by the partition" if p is None else
-           "a field can pass the partition without being recorded: %s" % " -> ".join("%s@%s" % (x.kind, x.lineno) for x in p[:8]))
-    # which table feeds what
-    ft = an.ft(gs)
-    def branch_kinds(n):
-        ks = []
-        for t, tr in dominating_guards(an, gs, n):
-            if isinstance(t.ast, ast.Call) and ast.unparse(t.ast.func) == "isinstance":
-                spec = ft.class_spec(t.ast.args[1], ft.env_in.get(t) or {}) or []
-                ks.append((tuple(spec), tr))
-        return ks
-    table_kinds = {name: [branch_kinds(n) for n in ns] for name, ns in stores.items()}
-    # the class body lists table X, the constructor lists table Y, the methods loop table Z
-    class_tables = set()
-    ctor_tables = set()
-    method_tables = set()
+        if n.kind == "call" and isinstance(n.ast, ast.Call) and isinstance(n.ast.func, ast.Attribute) and n.ast.func.attr in ("append", "add") \
+                and isinstance(n.ast.func.value, ast.Name) and id(n.ast) in in_head:
+            stores.setdefault(n.ast.func.value.id, []).append(n)
+    defs = {}
     for x in ast.walk(gs.node):
-        if isinstance(x, ast.ListComp) and isinstance(x.generators[0].iter, ast.Call) and isinstance(x.generators[0].iter.func, ast.Attribute) \
-                and isinstance(x.generators[0].iter.func.value, ast.Name):
-            class_tables.add(x.generators[0].iter.func.value.id)
-        if isinstance(x, ast.Call) and ast.unparse(x.func) == "list" and x.args and isinstance(x.args[0], ast.Call) and isinstance(x.args[0].func, ast.Attribute) \
-                and isinstance(x.args[0].func.value, ast.Name):
-            ctor_tables.add(x.args[0].func.value.id)
-        if isinstance(x, ast.For) and isinstance(x.iter, ast.Call) and isinstance(x.iter.func, ast.Attribute) and isinstance(x.iter.func.value, ast.Name) \
-                and x is not head.ast:
-            method_tables.add(x.iter.func.value.id)
-    def kinds_true(name):
-        out = set()
-        for ks in table_kinds.get(name, []):
-            for spec, tr in ks:
-                if tr:
-                    out |= set(spec)
-        return out
-    from engine.specialize import Spec
+        if isinstance(x, ast.Assign) and len(x.targets) == 1 and isinstance(x.targets[0], ast.Name):
+            defs.setdefault(x.targets[0].id, []).append(x.value)
+        elif isinstance(x, ast.AnnAssign) and isinstance(x.target, ast.Name) and x.value is not None:
+            defs.setdefault(x.target.id, []).append(x.value)
+    unpacked = {}                                   # a, b, c = <value>: name -> [(value, position)]
+    for x in ast.walk(gs.node):
+        if isinstance(x, ast.Assign) and len(x.targets) == 1 and isinstance(x.targets[0], (ast.Tuple, ast.List)):
+            for i_, t_ in enumerate(x.targets[0].elts):
+                if isinstance(t_, ast.Name):
+                    unpacked.setdefault(t_.id, []).append((x.value, i_))
+
+    def store_table(name: ast.Name):
+        """the loop-filled table a name stands for (itself, or through `a, b, c = (t1, t2, t3)` / plain aliases)"""
+        cur, hops = name.id, 0
+        while hops < 8:
+            hops += 1
+            if cur in stores:
+                return cur
+            vs = defs.get(cur)
+            if vs and len(vs) == 1 and isinstance(vs[0], ast.Name) and cur not in unpacked:
+                cur = vs[0].id
+                continue
+            if cur in unpacked and len(unpacked[cur]) == 1 and not vs:
+                src, idx = unpacked[cur][0]
+                if isinstance(src, ast.Name):
+                    sv = defs.get(src.id)
+                    src = sv[0] if sv and len(sv) == 1 else None
+                if isinstance(src, (ast.Tuple, ast.List)) and idx < len(src.elts) and isinstance(src.elts[idx], ast.Name):
+                    cur = src.elts[idx].id
+                    continue
+            return None
+        return None
+
     _specs = {}
 
     def spec_for(kind):
@@ -235,6 +265,9 @@ def check(ctx):
             tgt = head.ast.target
             if isinstance(tgt, ast.Tuple) and len(tgt.elts) == 2 and isinstance(tgt.elts[1], ast.Name):
                 field_var = tgt.elts[1].id
+            elif isinstance(tgt, ast.Name) and isinstance(head.ast.iter, ast.Call) and isinstance(head.ast.iter.func, ast.Attribute) \
+                    and head.ast.iter.func.attr == "values":
+                field_var = tgt.id
 
             def decide(e, node):
                 if isinstance(e, ast.Call) and isinstance(e.func, ast.Name) and e.func.id == "isinstance" and len(e.args) == 2 \
@@ -251,19 +284,188 @@ def check(ctx):
         """can a field of *kind* be stored into table *name*?  (generate_stub specialised for that kind of field)"""
         sp = spec_for(kind)
         return any(n in sp.normal for n in stores.get(name, []))
-    okc = bool(class_tables) and all(reachable_for(t, "VirtualField") and reachable_for(t, "StringField") and not reachable_for(t, "InstanceMethodField")
-                                    for t in class_tables)
-    ctx.ob("partition.attributes-include-virtual", gs, "class body table(s) %s" % sorted(class_tables), okc,
+
+    def is_fields(e):
+        return isinstance(e, ast.Attribute) and e.attr == "_fields"
+
+    def view(e):
+        """(base expression, which view) of X / X.items() / X.values() / X.keys()"""
+        if isinstance(e, ast.Call) and isinstance(e.func, ast.Attribute) and e.func.attr in ("items", "values", "keys") and not e.args:
+            return e.func.value, e.func.attr
+        return e, "self"
+
+    def mem(e, kind, depth=0):
+        """can (True) / cannot (False) an entry for a field of *kind* be in the collection *e*; None = not read"""
+        if depth > 40:
+            return None
+        if is_fields(e):
+            return True
+        if isinstance(e, ast.Starred):
+            return mem(e.value, kind, depth + 1)
+        if isinstance(e, ast.Name):
+            st = store_table(e)
+            if st is not None and head is not None:
+                return reachable_for(st, kind)
+            vs = defs.get(e.id)
+            if not vs or len(vs) != 1:
+                return None
+            return mem(vs[0], kind, depth + 1)
+        if isinstance(e, (ast.List, ast.Tuple, ast.Set)):
+            parts = [mem(x, kind, depth + 1) if isinstance(x, ast.Starred) else (False if isinstance(x, ast.Constant) else None) for x in e.elts]
+            if any(p is True for p in parts):
+                return True
+            return False if all(p is False for p in parts) else None
+        if isinstance(e, ast.Dict) and not e.keys:
+            return False
+        if isinstance(e, ast.BinOp) and isinstance(e.op, (ast.Add, ast.BitOr)):
+            a, b = mem(e.left, kind, depth + 1), mem(e.right, kind, depth + 1)
+            if a is True or b is True:
+                return True
+            return False if (a is False and b is False) else None
+        if isinstance(e, ast.Call) and isinstance(e.func, ast.Name) and e.func.id in ("list", "dict", "sorted", "tuple", "set", "frozenset") and len(e.args) == 1:
+            return mem(view(e.args[0])[0], kind, depth + 1)
+        if isinstance(e, COMP) and len(e.generators) == 1:
+            gen = e.generators[0]
+            base, which = view(gen.iter)
+            inb = mem(base, kind, depth + 1)
+            if inb is not True:
+                return inb
+            keyvar = fieldvar = None
+            t = gen.target
+            if which == "items" and isinstance(t, ast.Tuple) and len(t.elts) == 2 and all(isinstance(x, ast.Name) for x in t.elts):
+                keyvar, fieldvar = t.elts[0].id, t.elts[1].id
+            elif which in ("keys", "self") and isinstance(t, ast.Name):
+                keyvar = t.id
+            elif which == "values" and isinstance(t, ast.Name):
+                fieldvar = t.id
+            if not _holds_fields(base):
+                fieldvar = None            # the values of a derived table are annotations, not fields
+            res = True
+            for c in gen.ifs:
+                v = cond(c, kind, keyvar, fieldvar, depth + 1)
+                if v is False:
+                    return False
+                if v is None:
+                    res = None
+            return res
+        return None
+
+    def _holds_fields(base, depth=0):
+        """do the values of this mapping stand for the field objects themselves?"""
+        if is_fields(base):
+            return True
+        if isinstance(base, ast.Name) and depth < 6:
+            vs = defs.get(base.id)
+            if vs and len(vs) == 1:
+                v = vs[0]
+                if is_fields(v) or isinstance(v, ast.Name):
+                    return _holds_fields(v, depth + 1)
+                if isinstance(v, ast.DictComp) and len(v.generators) == 1:
+                    b, w = view(v.generators[0].iter)
+                    t = v.generators[0].target
+                    return w == "items" and isinstance(t, ast.Tuple) and len(t.elts) == 2 and isinstance(v.value, ast.Name) \
+                        and isinstance(t.elts[1], ast.Name) and v.value.id == t.elts[1].id and _holds_fields(b, depth + 1)
+        return False
+
+    def cond(c, kind, keyvar, fieldvar, depth):
+        if isinstance(c, ast.UnaryOp) and isinstance(c.op, ast.Not):
+            v = cond(c.operand, kind, keyvar, fieldvar, depth + 1)
+            return None if v is None else (not v)
+        if isinstance(c, ast.BoolOp):
+            vs = [cond(v, kind, keyvar, fieldvar, depth + 1) for v in c.values]
+            if isinstance(c.op, ast.And):
+                return False if any(v is False for v in vs) else (True if all(v is True for v in vs) else None)
+            return True if any(v is True for v in vs) else (False if all(v is False for v in vs) else None)
+        if isinstance(c, ast.Call) and isinstance(c.func, ast.Name) and c.func.id == "isinstance" and len(c.args) == 2 \
+                and isinstance(c.args[0], ast.Name) and c.args[0].id == fieldvar:
+            spec = ft.class_spec(c.args[1], {}) or []
+            if not spec or any(s_ not in model.classes for s_ in spec):
+                return None
+            return any(model.classes[kind].is_subclass_of(model.classes[s_]) for s_ in spec)
+        if isinstance(c, ast.Compare) and len(c.ops) == 1 and isinstance(c.ops[0], (ast.In, ast.NotIn)) and isinstance(c.left, ast.Name) and c.left.id == keyvar:
+            v = mem(c.comparators[0], kind, depth + 1)
+            return None if v is None else (v if isinstance(c.ops[0], ast.In) else (not v))
+        return None
+
+    # ---- which collection feeds which part of the output
+    ctor_stmts, method_iters, class_iters = [], [], []
+    for x in ast.walk(gs.node):
+        if isinstance(x, ast.Constant) and isinstance(x.value, str) and "def __init__(" in x.value:
+            par = x
+            while getattr(par, "_parent", None) is not None and not isinstance(par, ast.stmt):
+                par = par._parent
+            ctor_stmts.append(par)
+    in_ctor = {id(y) for st in ctor_stmts for y in ast.walk(st)}
+    for x in ast.walk(gs.node):
+        iters = []
+        if isinstance(x, COMP) and len(x.generators) == 1:
+            iters = [(x.generators[0].iter, [x.elt] if not isinstance(x, ast.DictComp) else [x.key, x.value])]
+        elif isinstance(x, ast.For) and (head is None or x is not head.ast):
+            iters = [(x.iter, x.body)]
+        if id(x) in in_ctor:
+            continue
+        for it, body in iters:
+            base = view(it)[0]
+            if not isinstance(base, ast.Name) or mem(base, "StringField") is None:
+                continue            # not a table of fields
+            if any(isinstance(y, ast.Call) and ast.unparse(y.func).endswith("get_method_annotation") for b in body for y in ast.walk(b)):
+                method_iters.append(base)
+            elif isinstance(x, COMP) and isinstance(getattr(x, "_parent", None), (ast.Assign, ast.AnnAssign)) and not isinstance(x, ast.ListComp):
+                continue            # a table defined from another table, not output
+            elif isinstance(x, COMP) and isinstance(getattr(x, "_parent", None), (ast.Assign, ast.AnnAssign)) and \
+                    any(id(y) in in_ctor for nm in [getattr(x._parent, "targets", [None])[0] or getattr(x._parent, "target", None)] if isinstance(nm, ast.Name)
+                        for st in ctor_stmts for y in ast.walk(st) if isinstance(y, ast.Name) and y.id == nm.id):
+                continue            # the list the constructor line is made of
+            else:
+                class_iters.append(base)
+    ctor_tables = []
+    for st in ctor_stmts:
+        seen = set()
+        receivers = {id(c.func.value) for c in ast.walk(st) if isinstance(c, ast.Call) and isinstance(c.func, ast.Attribute)
+                     and c.func.attr in ("append", "extend", "insert", "add")}         # the output being built, not an input
+        work = [y for y in ast.walk(st) if isinstance(y, ast.Name) and isinstance(y.ctx, ast.Load) and id(y) not in receivers]
+        while work:
+            y = work.pop()
+            if y.id in seen:
+                continue
+            seen.add(y.id)
+            if mem(y, "StringField") is not None:
+                ctor_tables.append(y)
+            elif y.id in defs and len(defs[y.id]) == 1 and isinstance(defs[y.id][0], (ast.BinOp, ast.List, ast.Call)):
+                work.extend(z for z in ast.walk(defs[y.id][0]) if isinstance(z, ast.Name) and isinstance(z.ctx, ast.Load))
+    ctx.need(bool(ctor_stmts), "generate_stub no longer emits a constructor line")
+    ctx.need(bool(class_iters) and bool(method_iters) and bool(ctor_tables),
+             "generate_stub: cannot tell which tables feed the class body, the constructor and the methods")
+    label = lambda es: sorted({store_table(e) or e.id for e in es})
+
+    # ---- every field is recorded somewhere
+    if head is not None and stores:
+        body0 = [s for s, lbl in head.succ if lbl is True][0]
+        all_store_nodes = {n for ns in stores.values() for n in ns}
+        p = path_avoiding(an, gs, body0, lambda n: n is head, lambda n: n in all_store_nodes, exceptions=False)
+        ctx.ob("partition.total", gs, "every field is recorded in some table", p is None, "no field is dropped by the partition" if p is None else
+               "a field can pass the partition without being recorded: %s" % " -> ".join("%s@%s" % (x.kind, x.lineno) for x in p[:8]))
+    else:
+        kinds = [k for k in ("StringField", "Schema", "ConfigTypeField", "VirtualField", "InstanceMethodField") if k in model.classes]
+        dropped = [k for k in kinds if not any(mem(t, k) is True for t in class_iters + method_iters)]
+        ctx.ob("partition.total", gs, "every field is recorded in some table", not dropped, "no field is dropped by the partition" if not dropped else
+               "a %s is in neither the class body nor the methods" % dropped[0])
+    okc = all(mem(t, "VirtualField") is True and mem(t, "StringField") is True and mem(t, "InstanceMethodField") is False for t in class_iters)
+    ctx.ob("partition.attributes-include-virtual", gs, "class body table(s) %s" % label(class_iters), okc,
            "the annotated attributes list every field, virtual ones included, but no instance method" if okc else
            "the annotated attribute list misses virtual or persistent fields, or contains instance methods")
-    okk = bool(ctor_tables) and all(reachable_for(t, "StringField") and reachable_for(t, "Schema") and not reachable_for(t, "VirtualField")
-                                    and not reachable_for(t, "InstanceMethodField") for t in ctor_tables)
-    ctx.ob("partition.ctor-only-persistent", gs, "constructor table(s) %s" % sorted(ctor_tables), okk,
+    okk = all(mem(t, "StringField") is True and mem(t, "Schema") is True and mem(t, "VirtualField") is False
+              and mem(t, "InstanceMethodField") is False for t in ctor_tables)
+    ctx.ob("partition.ctor-only-persistent", gs, "constructor table(s) %s" % label(ctor_tables), okk,
            "constructor parameters are exactly the persistent fields" if okk else
            "the constructor parameter list contains virtual fields / instance methods or misses persistent fields")
-    okm = bool(method_tables) and all(reachable_for(t, "InstanceMethodField") and not reachable_for(t, "StringField") for t in method_tables)
-    ctx.ob("partition.methods", gs, "method table(s) %s" % sorted(method_tables), okm, "one method per instance-method field" if okm else
+    okm = all(mem(t, "InstanceMethodField") is True and mem(t, "StringField") is False for t in method_iters)
+    ctx.ob("partition.methods", gs, "method table(s) %s" % label(method_iters), okm, "one method per instance-method field" if okm else
            "instance methods are not rendered from their own table")
+
+
+
+def _stub_tail(ctx, an, model, gs, g):
     # the class body is never empty: the constructor line is emitted on every path (a schema without persistent fields
     # still needs `def __init__(self): ...`, otherwise `class X(...):` has no body and the stub is not valid Python)
     from engine.flow import must_pass
@@ -280,9 +482,33 @@ def check(ctx):
     rendered = any(n.kind == "call" and gma in an.callees(gs, n) for n in g.nodes)
     ctx.ob("methods.rendered", gs, "get_method_annotation(key, field) for every method", rendered, "each instance method is rendered" if rendered else
            "instance methods are no longer rendered")
-    uses_spec = any(isinstance(x, ast.Call) and (ast.unparse(x.func).endswith("getfullargspec") or ast.unparse(x.func).endswith("signature"))
+    # each component of the FullArgSpec is consumed: by position when the result is unpacked, by attribute otherwise
+    NEED = {"args": 0, "varargs": 1, "varkw": 2, "kwonlyargs": 4}
+
+    def is_argspec(v, depth=0):
+        """inspect.getfullargspec(...) itself, or a property / accessor of the field that returns it"""
+        if isinstance(v, ast.Call) and ast.unparse(v.func).endswith("getfullargspec"):
+            return True
+        name = v.attr if isinstance(v, ast.Attribute) else (v.func.attr if isinstance(v, ast.Call) and isinstance(v.func, ast.Attribute) and not v.args else None)
+        if name is None or depth > 2:
+            return False
+        cands = [m for c in model.classes.values() for nm, m in c.methods.items() if nm == name]
+        return bool(cands) and all(any(isinstance(r, ast.Return) and r.value is not None and is_argspec(r.value, depth + 1) for r in ast.walk(m.node)) for m in cands)
+    used = set()
+    loads = {x.id for f2 in an.reachable_fns([gma]) for x in ast.walk(f2.node) if isinstance(x, ast.Name) and isinstance(x.ctx, ast.Load)}
+    for f2 in an.reachable_fns([gma]):
+        for x in ast.walk(f2.node):
+            if isinstance(x, ast.Assign) and is_argspec(x.value) and isinstance(x.targets[0], (ast.Tuple, ast.List)):
+                for nm, i in NEED.items():
+                    if i < len(x.targets[0].elts) and isinstance(x.targets[0].elts[i], ast.Name) and x.targets[0].elts[i].id in loads:
+                        used.add(nm)
+            if isinstance(x, ast.Attribute) and isinstance(x.ctx, ast.Load) and x.attr in NEED:
+                used.add(x.attr)
+            if isinstance(x, ast.Attribute) and x.attr == "parameters":
+                used |= set(NEED)           # inspect.signature(...).parameters carries every kind
+    uses_spec = any((isinstance(x, ast.Call) and ast.unparse(x.func).endswith("signature")) or (isinstance(x, (ast.Call, ast.Attribute)) and is_argspec(x))
                     for f2 in an.reachable_fns([gma]) for x in ast.walk(f2.node))
-    covers = all(any(isinstance(x, ast.Name) and x.id == nm for x in ast.walk(gma.node)) for nm in ("varargs", "varkw", "kwonlyargs"))
+    covers = used == set(NEED)
     ctx.ob("methods.parameter-kinds", gma, "positional / *args / keyword-only / **kwargs", uses_spec and covers,
            "every parameter kind reported by getfullargspec is rendered" if uses_spec and covers else
            "some parameter kinds of the bound function are not rendered")
